@@ -28,7 +28,7 @@ import (
 )
 
 func main() {
-	Main("C07", check, func(c *Ctx) (string, []byte, error) { return tabgen.Gen(c.Repo) }, rendergen.Gen)
+	Main("C07", check, func(c *Ctx) (string, []byte, error) { return tabgen.Gen(c.Repo) }, rendergen.Gen, stateGen)
 }
 
 const imp = "From Sdfx Require Import Render.C07Corr.\nOpen Scope float_scope."
@@ -589,6 +589,7 @@ func check(c *Ctx, r *Report) error {
 		st.readback()
 		st.genFine(rng, c)
 		st.genReuse(rng, c)
+		st.genMutated(rng, c)
 		reps := TierN(c.Tier, 5, 40, 20)
 		maxTop3 := TierN(c.Tier, 7, 7, 6)
 		// hook path: processCube / processSquare on dyadic lattices, every depth
